@@ -428,6 +428,19 @@ func (h *histState) step(op string) string {
 		return "ok"
 	case "replace":
 		return errs(h.sb.Replace(f[1], f[2], false))
+	case "replacere":
+		// regexp is an external: the value of ReplaceAllString for the sequence of every row, in order, is computed here
+		// (before the call) and handed to the model in the status (`{=s1=s2...}`, `{!}` when the expression does not compile)
+		re, repl := pctDec(f[1]), pctDec(f[2])
+		ext := "!"
+		if r, cerr := regexp.Compile(re); cerr == nil {
+			ext = ""
+			h.sb.IterateChar(func(name string, s []uint8) bool {
+				ext += "=" + pctEnc(r.ReplaceAllString(string(s), repl))
+				return false
+			})
+		}
+		return errs(h.sb.Replace(re, repl, true)) + "{" + ext + "}"
 	case "setchar":
 		return errs(h.sb.SetSequenceChar(atoi(f[1]), atoi(f[2]), f[3][0]))
 	case "replacechar":
